@@ -242,7 +242,19 @@ def w_post(case):
                      'observed': repr(e), 'behaviour': 's1:' + type(e).__name__})
         return {'transitions': ntr, 'outcome': 'raise', 'violations': viol}
     ntr += 1
-    grad = np.asarray(grad, dtype=float)
+    # (the gradient handed out is the caller's: a later evaluation at another point
+    # does not change it)
+    kept_grad, kept_copy = grad, np.array(grad, dtype=float, copy=True)
+    post.evaluateS1(pts[1].copy())
+    post(pts[1].copy())
+    ntr += 2
+    if not np.array_equal(np.asarray(kept_grad, dtype=float), kept_copy):
+        viol.append({'sub': 'retained', 'message': 'the sensitivities returned by '
+                     'evaluateS1 changed when the posterior was evaluated at '
+                     'another point afterwards (%s)' % lab, 'expected': kept_copy,
+                     'observed': np.asarray(kept_grad, dtype=float),
+                     'behaviour': 'retained'})
+    grad = kept_copy
     if not tol.close(s, gots[0]):
         viol.append({'sub': 's1_score', 'message': 'evaluateS1 score differs from '
                      '__call__ (%s)' % lab, 'expected': gots[0], 'observed': s,
@@ -488,3 +500,7 @@ META = {
                   'product is complete. Toy mechanistic model; filters decided by '
                   'C12, population models by C05.',
 }
+META['level_text'] += (
+    ' Also: the posterior around the dosed library model (both routes) under every '
+    'history of three evaluations with / without sensitivities; the gradient handed'
+    ' out is compared again after later evaluations.')
